@@ -156,6 +156,15 @@ class Purity:
                 return ("impure",)
             if isinstance(f.value, ast.Name) and f.value.id in PURE_MODULES:
                 return ("pure",)
+            if isinstance(f.value, ast.Name) and f.value.id in self.classes:
+                # Class.method(...): that class's own method
+                own = [d for d in self.methods.get(m, []) if self.in_class.get(d) is self.classes[f.value.id]]
+                if own:
+                    return ("fns", own)
+            if m in PURE_METHODS and not (isinstance(f.value, ast.Name) and f.value.id in ("self", "cls")):
+                # names of the non-mutating container / string / term methods: the receiver is taken to be one of those
+                # (package classes that reuse such a name -- copy, values, get -- keep its read-only meaning)
+                return ("pure",)
             if m in self.methods:
                 return ("fns", list(self.methods[m]))
             if m in self.classes:
